@@ -180,7 +180,9 @@ class PumlParser(DiagramParser):
                 self._unify_module(dependee, all_aliases) for dependee in dependees
             }
 
-            unified_dependencies[unified_dependor] = unified_dependees
+            unified_dependencies.setdefault(unified_dependor, set()).update(
+                unified_dependees
+            )
 
         unified_modules = self._get_unified_modules(modules, unified_dependencies)
 
